@@ -27,6 +27,15 @@ def powVec (r : Rat → Rat) (precision : Nat) : Rat := r ((10 : Rat) ^ (min pre
 
 /-- the value of the written token -/
 def writeNumValue (r : Rat → Rat) (precision : Nat) (num : Rat) : Rat :=
+  if intLike num then
+    -- (fix d6c230e) `as i32` only inside its range; beyond it the float is printed as it is
+    (if num < 2147483648 ∧ -2147483648 < num then (asI32 num : Rat) else num)
+  else
+    let pow := powVec r precision
+    r ((roundHalfAway (r (num * pow)) : Rat) / pow)
+
+/-- `write_num` before fix d6c230e: every number without a fractional part went through `as i32` -/
+def writeNumValueOld (r : Rat → Rat) (precision : Nat) (num : Rat) : Rat :=
   if intLike num then (asI32 num : Rat)
   else
     let pow := powVec r precision
